@@ -190,10 +190,12 @@ class Ctx:
                 known_hits.append((sig, d))
             else:
                 violations.append((sig, d))
-        for sig, d in known_hits:
+        hit = {sig: d["count"] for sig, d in known_hits}
+        for sig, e in sorted(self.known_open.items()):
+            # one line per listed open finding, whether or not this run happened to generate it
             print(
                 "KNOWN-FINDING: property=%s %s (%d cases this run; signature %s)"
-                % (self.pid, self.known_open[sig].get("what", sig), d["count"], sig)
+                % (self.pid, e.get("what", sig), hit.get(sig, 0), sig)
             )
         replay_paths = []
         for sig, d in violations:
